@@ -36,7 +36,7 @@ def cases(rng, tier):
     for c in a:
         # crash-free compaction histories run their rounds with a snapshot at every batch's publication
         if not any(o[0] == "X" for o in c["ops"]):
-            c["ops"] = [["CSNAP"] if o[0] == "C" else o for o in c["ops"]]
+            c["ops"] = [["CSNAP"] if o[0] == "C" else o for o in c["ops"]]   # (CSNAP read stays)
             c["show"] = c["show"].replace(" C ", " CSNAP ").replace(" C ", " CSNAP ")
     for c in a + b:
         c["kind"] = "c11/" + c["kind"]
@@ -128,6 +128,11 @@ def oracle(c, impl):
         elif t == "cl" and cur_out is not None:
             published_ids.add(cur_out)
     obs_in_first_life = first_life.count("O")
+    if "HIDE" in ops:
+        # the injected read fault renames a file itself (X.zones -> X.zones.hidden): not a change of the segment
+        for o in impl["obs"]:
+            o["hashes"] = {seg: {f.replace(".hidden", ""): h for f, h in files.items()} if isinstance(files, dict) else files
+                           for seg, files in o["hashes"].items()}
     for n, o in enumerate(impl["obs"]):
         # (3) crash-free, fault-free histories: a complete segment directory that was published and that no compaction
         # took as an input is named by segments.idx (a published segment does not drop out of the index while its
